@@ -16,6 +16,17 @@ Theorem C14_foreach_unfold : forall s var n o w bops bch st,
   seq (item_step rec run_ops_of var bops bch) (foreach_items s (st_data st)) st.
 Proof. exact (foreach_unfold rec rec_do bound run_ops_of). Qed.
 
+(* a forEach over a list query runs over the items the list HAD when the forEach started: what the body writes into that
+   list (an item not reached yet overwritten, items appended or removed) does not change which items it runs for *)
+Theorem C14_foreach_query_items_fixed_at_start : forall path var n o w bops bch st xs,
+  lookup path (Con (st_data st)) = Some (Lst xs) ->
+  run_op rec rec_do bound run_ops_of (OpForEach (SQuery path) var (Act n o w bops bch)) st =
+  seq (item_step rec run_ops_of var bops bch) xs st.
+Proof.
+  intros path var n o w bops bch st xs H.
+  rewrite (foreach_unfold rec rec_do bound run_ops_of). unfold foreach_items. now rewrite H.
+Qed.
+
 Theorem C14_foreach_in_order : forall var bops bch items1 x items2 st st1,
   seq (item_step rec run_ops_of var bops bch) items1 st = (st1, SOk) ->
   seq (item_step rec run_ops_of var bops bch) (items1 ++ x :: items2) st =
@@ -30,6 +41,7 @@ Theorem C14_foreach_var_removed : forall var bops bch items st st' r,
 Proof. exact (foreach_var_removed rec run_ops_of). Qed.
 End C14.
 Print Assumptions C14_foreach_unfold.
+Print Assumptions C14_foreach_query_items_fixed_at_start.
 Print Assumptions C14_foreach_in_order.
 Print Assumptions C14_foreach_var_removed.
 
